@@ -46,14 +46,15 @@ if _role == 'child' and ('stderr_cut' in _env or 'stderr_pre' in _env
                 os.write(2, data[:room])
             if len(data) > room:
                 # bytes of the report are being dropped: the report IS cut
-                if not self._cut_logged:
-                    self._cut_logged = True
-                    _log.emit('ReportCut', at=cut)
+                if self._cut_logged < 8:
+                    self._cut_logged += 1
+                    _log.emit('ReportCut', at=cut,
+                              lost=data[room:][:60].decode('latin-1'))
                 if _env.get('die_at_cut'):
                     worldlib.crash(_env['die_at_cut'])
             return len(s)
 
-        _cut_logged = False
+        _cut_logged = 0
 
         def flush(self):
             pass
